@@ -64,6 +64,40 @@ fn driving_strings(r: &RefDfa, budget: usize) -> Vec<Vec<u8>> {
             }
         }
     }
+    // deep reference automata (long patterns, products): guided random walks that mostly make progress towards deeper states but
+    // keep inserting other symbols on the way, observed at many prefixes - a state reached "the wrong way" is only told apart from
+    // the right one by what happens many steps later
+    let n = r.trans.len();
+    if n > 8 {
+        // breadth-first depth of every state
+        let mut depth = vec![usize::MAX; n];
+        depth[0] = 0;
+        let mut queue = std::collections::VecDeque::from(vec![0usize]);
+        while let Some(s) = queue.pop_front() {
+            for &t in &r.trans[s] {
+                if depth[t] == usize::MAX {
+                    depth[t] = depth[s] + 1;
+                    queue.push_back(t);
+                }
+            }
+        }
+        let mut rng = Rng::new(n as u64 * 31 + k as u64, 0x18_aa);
+        for w in 0..14 {
+            let mut s = 0usize;
+            let mut cur: Vec<u8> = vec![];
+            let maxlen = 3 * n + 6;
+            let detour = [3u64, 10, 25][w % 3];
+            for step in 0..maxlen {
+                let forward: Vec<usize> = (0..k).filter(|&a| depth[r.trans[s][a]] > depth[s] && depth[r.trans[s][a]] != usize::MAX).collect();
+                let a = if !forward.is_empty() && rng.below(100) >= detour { forward[rng.usize(forward.len())] } else { rng.usize(k) };
+                cur.push(r.alphabet[a]);
+                s = r.trans[s][a];
+                if step % 5 == 4 || step + 1 == maxlen || step < 3 {
+                    out.push(cur.clone());
+                }
+            }
+        }
+    }
     out
 }
 
@@ -256,6 +290,31 @@ pub fn run(ctx: &Ctx) -> i32 {
                 _ => unary(i / 6, &binary(i / 18, &unary(i / 36, &x), &binary(i / 72, &y, &z))),
             };
             exprs.push(e);
+        }
+    }
+    // long patterns (lengths around 64, 128 and 256: the sizes of machine words, bitmaps and small tables), alone, under the unary
+    // combinators and combined with a short leaf
+    {
+        let mut long: Vec<SpecE> = vec![];
+        for &n in [31usize, 32, 33, 63, 64, 65, 66, 127, 128, 129, 255, 256, 257].iter() {
+            let shapes: Vec<String> = vec![
+                format!("{}b", "a".repeat(n - 1)),
+                "ab".repeat(n / 2 + 1)[..n].to_string(),
+                (0..n).map(|i| ['a', 'b', 'c'][(i * i + i / 7) % 3]).collect(),
+                format!("b{}", "a".repeat(n - 1)),
+            ];
+            for p in shapes {
+                long.push(SpecE::Subseq(p.clone()));
+                long.push(SpecE::Str(p));
+            }
+        }
+        for l in &long {
+            exprs.push(l.clone());
+            for k in 0..3 {
+                exprs.push(unary(k, l));
+            }
+            exprs.push(binary(0, l, &SpecE::Subseq("ab".to_string())));
+            exprs.push(binary(1, &SpecE::Str("a".to_string()), l));
         }
     }
     let nexprs = exprs.len();
